@@ -109,3 +109,23 @@ def run_parallel(ck, jobs, ncpu=None):
     _JOBS.clear()
     for i, (name, fn, kw) in enumerate(jobs): _JOBS[i] = (ck, name, fn, kw)
     for d in common.pmap(_job, list(range(len(jobs))), ncpu): ck.absorb(d)
+
+# --------------------------------------------------------------------------------------------- path-parallel exploration
+_PP = {}
+def _pp_job(prefix):
+    run, on_path, tmo, maxpaths = _PP["job"]
+    common.STATS.__init__()
+    out = []
+    for res, pc, hyp, taken, status in symcore.explore(run, maxpaths=maxpaths, prefixes=[prefix], timeout_ms=tmo):
+        out.append(on_path(res, pc, hyp, taken, status))
+    return out, common.STATS.asdict()
+
+def par_paths(ck, run, on_path, depth=4, timeout_ms=20000, maxpaths=500000):
+    """explore all paths of run() in parallel worker processes (split at `depth` decisions).
+    on_path(res, pc, hyp, taken, status) -> small picklable summary; returns the list of summaries."""
+    _PP["job"] = (run, on_path, timeout_ms, maxpaths)
+    prefixes = symcore.split_prefixes(run, depth, timeout_ms)
+    outs = []
+    for o, st in common.pmap(_pp_job, prefixes):
+        outs += o; ck.merge_stats(st)
+    return outs
